@@ -55,6 +55,10 @@ pub struct HistPlan {
     /// every observed value and every bound is negated (-(2^k)): sums run negative
     #[serde(default)]
     pub negate: bool,
+    /// vector containers: the child does not exist when the threads start; every operation looks it
+    /// up (and the first ones create it) through with_label_values
+    #[serde(default)]
+    pub lazy_child: bool,
 }
 fn bounds_of(plan: &HistPlan) -> Vec<f64> {
     let mut b: Vec<f64> = plan.bound_exps.iter().map(|e| (1u64 << e) as f64).collect();
@@ -175,14 +179,29 @@ fn gen_plan(seed: u64, long: bool) -> HistPlan {
         env.stall = Some(Stall { thread: t, at, len: 30 + r.below(60) as u32 });
     }
     let negate = r.chance(15);
-    HistPlan { env, bound_exps: exps, container, threads, negate }
+    let lazy_child = matches!(container, Container::Vec | Container::VecRegistry) && r.chance(35);
+    HistPlan { env, bound_exps: exps, container, threads, negate, lazy_child }
 }
 
 struct Objects {
     neg: bool,
-    h: Histogram,
+    lazy: bool,
+    bounds: Vec<f64>,
+    h: Option<Histogram>,
     hv: Option<HistogramVec>,
     reg: Option<Registry>,
+}
+
+impl Objects {
+    /// the histogram under test (looked up in the vector, and created if need be, in lazy mode)
+    fn hist(&self) -> Histogram {
+        match (&self.h, &self.hv) {
+            (Some(h), _) if !self.lazy => h.clone(),
+            (_, Some(hv)) => hv.with_label_values(&["x"]),
+            (Some(h), None) => h.clone(),
+            _ => unreachable!(),
+        }
+    }
 }
 
 fn build(plan: &HistPlan) -> Objects {
@@ -199,11 +218,11 @@ fn build(plan: &HistPlan) -> Objects {
             } else {
                 None
             };
-            Objects { neg, h, hv: None, reg }
+            Objects { neg, lazy: false, bounds: bounds_of(plan), h: Some(h), hv: None, reg }
         }
         _ => {
             let hv = HistogramVec::new(opts, &["l"]).unwrap();
-            let h = hv.with_label_values(&["x"]);
+            let h = if plan.lazy_child { None } else { Some(hv.with_label_values(&["x"])) };
             let reg = if plan.container == Container::VecRegistry {
                 let r = Registry::new();
                 r.register(Box::new(hv.clone())).unwrap();
@@ -211,19 +230,24 @@ fn build(plan: &HistPlan) -> Objects {
             } else {
                 None
             };
-            Objects { neg, h, hv: Some(hv), reg }
+            Objects { neg, lazy: plan.lazy_child, bounds: bounds_of(plan), h, hv: Some(hv), reg }
         }
     }
 }
 
 fn snapshot(o: &Objects, via: &Via) -> PHist {
     let pick = |mfs: Vec<proto::MetricFamily>| -> PHist {
-        let f = compat::family_of(&mfs[0]);
-        f.metrics[0].hist.clone().expect("histogram payload")
+        // (lazy mode: before anybody created the child the vector / registry shows nothing: an empty snapshot)
+        let empty = || PHist { count: 0, sum: 0.0, buckets: o.bounds.iter().map(|b| (*b, 0)).collect() };
+        match mfs.first().map(compat::family_of) {
+            Some(f) if !f.metrics.is_empty() => f.metrics[0].hist.clone().expect("histogram payload"),
+            _ if o.lazy => empty(),
+            _ => panic!("no sample in the collection"),
+        }
     };
     match via {
-        Via::Metric => compat::metric_of(&o.h.metric(), compat::PType::Histogram).hist.expect("histogram payload"),
-        Via::Collector => pick(o.h.collect()),
+        Via::Metric => compat::metric_of(&o.hist().metric(), compat::PType::Histogram).hist.expect("histogram payload"),
+        Via::Collector => pick(o.hist().collect()),
         Via::VecCollect => pick(o.hv.as_ref().expect("vec").collect()),
         Via::Gather => pick(o.reg.as_ref().expect("registry").gather()),
     }
@@ -232,11 +256,11 @@ fn snapshot(o: &Objects, via: &Via) -> PHist {
 fn exec_op(o: &Objects, op: &HOp) -> HRes {
     match op {
         HOp::Observe(k) => {
-            o.h.observe(val_of(o.neg, *k));
+            o.hist().observe(val_of(o.neg, *k));
             HRes::None
         }
         HOp::LocalBatch { ks, explicit, clone_mid } => {
-            let l = o.h.local();
+            let l = o.hist().local();
             let mut l2 = None;
             for (i, k) in ks.iter().enumerate() {
                 if *clone_mid && i == 1 {
@@ -259,8 +283,8 @@ fn exec_op(o: &Objects, op: &HOp) -> HRes {
             HRes::None
         }
         HOp::Collect(via) => HRes::Snap(snapshot(o, via)),
-        HOp::Count => HRes::Count(o.h.get_sample_count()),
-        HOp::Sum => HRes::Sum(o.h.get_sample_sum()),
+        HOp::Count => HRes::Count(o.hist().get_sample_count()),
+        HOp::Sum => HRes::Sum(o.hist().get_sample_sum()),
     }
 }
 
@@ -287,8 +311,8 @@ fn execute(prop: &'static str, plan: &HistPlan, mode: Mode) -> RunOut {
         let finals = finals.clone();
         spawn_final(&sim, move |_ctx| {
             let s = snapshot(&o, &Via::Metric);
-            let c = o.h.get_sample_count();
-            let m = o.h.get_sample_sum();
+            let c = o.hist().get_sample_count();
+            let m = o.hist().get_sample_sum();
             *finals.lock().unwrap() = Some((s, c, m));
         });
     }
